@@ -48,8 +48,7 @@ class TaskGenerator:
         self.stopped = False
 
         # Filter nodes and partition into subsets of size ``gran``.
-        filter_func = getattr(mutator, 'filter', lambda x: True)
-        filtered = list(nodes.filter_nodes(exprs, filter_func, max_depth))
+        filtered = list(nodes.filter_nodes(exprs, self.__filter, max_depth))
         self.num_filtered = len(filtered)
         self.gran = len(filtered) if gran is None else gran
         self.subsets = _partition(filtered, self.gran) if self.gran else []
@@ -63,6 +62,21 @@ class TaskGenerator:
     def __iter__(self):
         return self
 
+    def __filter(self, node):
+        """Apply the filter of ``self.mutator`` to ``node``.
+
+        Task generation runs in the main process: an exception within the
+        mutator must only cost this mutator's candidates for ``node``, not
+        abort ddSMT.
+        """
+        if not hasattr(self.mutator, 'filter'):
+            return True
+        try:
+            return self.mutator.filter(node)
+        except Exception as e:
+            logging.info(f'{type(e)} in filter of {self.mutator}: {e}')
+            return False
+
     def __next__(self):
         """Generate next task."""
         while not self.stopped and self.index < len(self.subsets):
@@ -72,11 +86,16 @@ class TaskGenerator:
             # Filter nodes in subset in order to ensure that the mutator still
             # applies after updating ``self.exprs`` via ``self.update``.
             subset = self.subsets[task_id]
-            subset = [n for n in subset if self.mutator.filter(n)]
+            subset = [n for n in subset if self.__filter(n)]
             if not subset:
                 continue
 
-            simps = self.__get_substs(subset)
+            try:
+                simps = self.__get_substs(subset)
+            except Exception as e:
+                logging.info(f'{type(e)} in application of '
+                             f'{self.mutator}: {e}')
+                continue
 
             if not simps:
                 continue
